@@ -2136,6 +2136,22 @@ impl SpeechRules {
     }
 }
 
+/// Forget every rule, Unicode, and definitions table that has been read so that they are read again when next needed.
+/// Called when the rules directory is (re)set: the files there might differ from what was read, even if the paths are the same.
+pub fn invalidate_rule_caches() {
+    for rules in [&INTENT_RULES, &SPEECH_RULES, &OVERVIEW_RULES, &NAVIGATION_RULES, &BRAILLE_RULES] {
+        rules.with(|rules| {
+            let mut rules = rules.borrow_mut();
+            rules.rules.clear();
+            rules.rule_files.clear();
+            rules.unicode_short_files.borrow_mut().clear();
+            rules.unicode_full.borrow_mut().clear();
+            rules.unicode_full_files.borrow_mut().clear();
+            rules.definitions_files.borrow_mut().clear();
+        });
+    }
+}
+
 impl SpeechRules {
     pub fn new(name: RulesFor, translate_single_chars_only: bool) -> SpeechRules {
         let globals = if name == RulesFor::Braille {
